@@ -80,11 +80,24 @@ fn prepare_project(file_path: &str, output_dir: Option<&str>) -> CliResult<Prepa
     codegen.scan_for_async(&main_module.ast);
     codegen.scan_for_web(&main_module.ast);
     codegen.scan_for_list_helpers(&main_module.ast);
+    // Imported modules are compiled into the same crate: what they use must be declared too.
+    for module in dep_modules {
+        codegen.scan_for_serde(&module.ast);
+        codegen.scan_for_async(&module.ast);
+        codegen.scan_for_web(&module.ast);
+    }
 
     let needs_serde = codegen.needs_serde();
     let needs_tokio = codegen.needs_tokio();
     let needs_axum = codegen.needs_axum();
-    let rust_crates = collect_rust_crates(&main_module.ast);
+    let mut rust_crates = collect_rust_crates(&main_module.ast);
+    for module in dep_modules {
+        for crate_name in collect_rust_crates(&module.ast) {
+            if !rust_crates.contains(&crate_name) {
+                rust_crates.push(crate_name);
+            }
+        }
+    }
 
     // Setup project generator
     let mut generator = ProjectGenerator::new(&out_dir, project_name, true);
